@@ -58,8 +58,10 @@ def setup():
 # ---------------------------------------------------------------------------
 # generation
 # ---------------------------------------------------------------------------
-def _gen_chunks(rng, n):
+def _gen_chunks(rng, n, many=False):
     r = rng.random()
+    if many and n > 12:
+        return random_composition(rng, n, rng.randint(11, min(n, 160)))
     if r < 0.08:
         return [n]
     if r < 0.16:
@@ -82,21 +84,27 @@ def _gmm_params(rng, X, c):
 
 def gen_case(rng, tier, kind=None):
     kind = kind or rng.choices(KINDS, KIND_W)[0]
-    big = tier == "thorough" and rng.random() < 0.3
+    big = rng.random() < (0.3 if tier == "thorough" else 0.06)
+    huge = big and rng.random() < 0.3
     case = {"kind": kind}
     if kind in ("kmeans", "gmm_ml", "gmm_map", "gmm_kminit"):
-        n = rng.randint(2, 80 if big else 30)
-        d = rng.randint(1, 4)
+        n = rng.randint(2, (300 if huge else 80) if big else 30)
+        d = rng.randint(1, 6 if big else 4)
         X = gen_data(rng, n, d)
+        if rng.random() < 0.06:  # integer-valued (still valid) training data
+            X = np.round(X / (np.abs(X).max() or 1.0) * 50.0)
+            case["xint"] = True
         case["X"] = L(X)
-        case["chunks"] = _gen_chunks(rng, n)
+        case["chunks"] = _gen_chunks(rng, n, many=huge)
+        if rng.random() < 0.15:
+            case["refit"] = True  # the same estimator object is trained a second time
         if d >= 2 and rng.random() < 0.12:
             case["fchunks"] = random_composition(rng, d, rng.randint(2, d))
         K = rng.randint(1, 8)
         case["K"] = K
         case["thr"] = rng.choice(THRS)
         if kind == "kmeans":
-            k = rng.randint(1, min(4, n))
+            k = rng.randint(1, min(8 if big else 4, n))
             r = rng.random()
             if r < 0.7:
                 rs = np.random.RandomState(rng.getrandbits(32))
@@ -112,7 +120,7 @@ def gen_case(rng, tier, kind=None):
                 case["K"] = min(case["K"], 3)
             case["cfg"] = {"k": k, "init": init, "rs": rng.randint(0, 1000)}
         else:
-            c = rng.randint(1, min(3, n))
+            c = rng.randint(1, min(6 if big else 3, n))
             means, variances, weights = _gmm_params(rng, X, c)
             cfg = {"c": c, "means": L(means), "variances": L(variances), "weights": L(weights),
                    "um": rng.random() < 0.8, "uv": rng.random() < 0.5, "uw": rng.random() < 0.5}
@@ -123,6 +131,8 @@ def gen_case(rng, tier, kind=None):
                 smax = float(np.abs(X).max()) or 1.0
                 cfg["vfloor"] = None if rng.random() < 0.2 else \
                     float(sig6(rng.choice([1e-3, 1e-2]) * smax * smax))
+            if rng.random() < 0.1:
+                cfg["mvut"] = rng.choice([1e-3, 0.5, 2.0])  # mean_var_update_threshold
             if kind == "gmm_map":
                 cfg["rf"] = rng.choice([None, 0.5, 4.0, 16.0])
                 cfg["alpha"] = rng.choice([0.1, 0.5, 0.9])
@@ -132,26 +142,29 @@ def gen_case(rng, tier, kind=None):
                 case["K"] = rng.randint(0, 3)
             case["cfg"] = cfg
     elif kind in ("isv", "jfa"):
-        nc = rng.randint(2, 4)
-        n = rng.randint(nc, 18)
+        nc = rng.randint(2, 7 if big else 4)
+        n = rng.randint(nc, 60 if big else 18)
         d = rng.randint(1, 3)
         X = gen_data(rng, n, d)
         y = list(range(nc)) + [rng.randrange(nc) for _ in range(n - nc)]
         rng.shuffle(y)
-        c = rng.randint(1, 2)
+        if rng.random() < 0.15:
+            case["refit"] = True
+        c = rng.randint(1, 3 if big else 2)
         means, variances, weights = _gmm_params(rng, X, c)
         case.update(X=L(X), y=y, chunks=_gen_chunks(rng, n), yform=rng.choice(["array", "list", "dask"]),
                     cfg={"c": c, "means": L(means), "variances": L(variances), "weights": L(weights),
-                         "rU": rng.randint(1, 2), "rV": rng.randint(1, 2), "it": rng.randint(1, 3),
-                         "rf": rng.choice([4.0, 1.0, 10.0]), "rs": rng.randint(0, 1000)})
+                         "rU": rng.randint(1, 3), "rV": rng.randint(1, 3), "it": rng.randint(1, 4),
+                         "rf": rng.choice([4.0, 1.0, 10.0]), "rs": rng.randint(0, 1000),
+                         "ubm_kwargs": rng.random() < 0.12})
     else:  # wccn / whitening
         d = rng.randint(1 if kind == "wccn" else 2, 4)
-        nc = rng.randint(1, 3)
-        n = rng.randint(d + nc + 2, d + nc + 25)
+        nc = rng.randint(1, 6 if big else 3)
+        n = rng.randint(d + nc + 2, d + nc + (150 if big else 25))
         rs = np.random.RandomState(rng.getrandbits(32))
         mix = rs.randn(d, d) + 2 * np.eye(d)
         X = sig6(rs.randn(n, d) @ mix * 10.0 ** rng.uniform(-1, 1) + rs.uniform(-2, 2, size=d))
-        case.update(X=L(X), chunks=_gen_chunks(rng, n), cfg={})
+        case.update(X=L(X), chunks=_gen_chunks(rng, n, many=huge), cfg={"pinv": rng.random() < 0.15})
         if kind == "wccn":
             y = [i % nc for i in range(n)]
             rng.shuffle(y)
@@ -193,6 +206,33 @@ def fixed_cases(tier):
                     cs["sched"] = {"mode": mode, "policy": "random", "workers": 2,
                                    "stall_p": 0.5, "seed": rng.getrandbits(32)}
                     out.append(cs)
+    # many blocks: counts around powers of two (reductions that work in groups change
+    # behaviour exactly there), single-row and uneven layouts
+    counts = [15, 17, 31, 33, 63, 65, 100, 127, 129, 257] if tier == "quick" else \
+        [15, 16, 17, 31, 32, 33, 63, 64, 65, 100, 127, 128, 129, 200, 255, 256, 257, 300, 513]
+    for kind in ("kmeans", "gmm_ml", "gmm_map", "gmm_kminit", "whitening", "wccn", "isv"):
+        for nb in counts:
+            if kind in ("isv",) and nb > 70:
+                continue
+            r2 = random.Random(f"fixedmany/{kind}/{nb}")
+            base = gen_case(r2, "quick", kind=kind)
+            n = nb + r2.randint(0, nb // 2)
+            reps = -(-n // len(base["X"]))
+            X = np.vstack([A(base["X"])] * reps)[:n]
+            X = sig6(X * (1 + 0.01 * np.random.RandomState(nb).randn(*X.shape)))
+            base["X"] = L(X)
+            if "y" in base:
+                nc = len(set(base["y"]))
+                base["y"] = [i % nc for i in range(n)]
+            base["chunks"] = random_composition(r2, n, nb)
+            base.pop("fchunks", None)
+            base["K"] = min(base.get("K", 1), 2) if kind != "gmm_kminit" else 1
+            if kind == "kmeans" and not isinstance(base["cfg"]["init"], list):
+                base["cfg"]["init"] = L(X[: base["cfg"]["k"]] * 1.01)
+            base["xmodes"] = False
+            base["sched"] = {"mode": r2.choice(list(MODES)), "policy": "random", "workers": 3,
+                             "stall_p": 0.5, "seed": r2.getrandbits(32)}
+            out.append(base)
     return out
 
 
@@ -200,7 +240,8 @@ def exhaustive_note(tier):
     nmax = 7 if tier == "thorough" else 5
     return (f"all 2^(n-1) row compositions for n=3..{nmax} x {{shared,isolated,placed}} x "
             "{kmeans,gmm_ml,gmm_map} are enumerated as fixed cases; exhaustive in that "
-            "dimension only (one data set and one random schedule per cell)")
+            "dimension only (one data set and one random schedule per cell). Plus fixed "
+            "many-block cases (15..257 row blocks, thorough ..513) for seven estimator kinds.")
 
 
 def sample_view(case):
@@ -235,6 +276,8 @@ def _make(case, max_steps, thr):
     if kind in ("gmm_ml", "gmm_map", "gmm_kminit"):
         kw = dict(convergence_threshold=thr, max_fitting_steps=max_steps,
                   update_means=cfg["um"], update_variances=cfg["uv"], update_weights=cfg["uw"])
+        if cfg.get("mvut") is not None:
+            kw["mean_var_update_threshold"] = cfg["mvut"]
         if kind == "gmm_map":
             prior = _mk_ubm(cfg)
             return GMMMachine(cfg["c"], trainer="map", ubm=prior, map_alpha=cfg["alpha"],
@@ -253,15 +296,21 @@ def _make(case, max_steps, thr):
         g.variances = A(cfg["variances"])
         g.weights = A(cfg["weights"])
         return g
-    if kind == "isv":
-        return ISVMachine(cfg["rU"], em_iterations=cfg["it"], relevance_factor=cfg["rf"],
-                          random_state=cfg["rs"], ubm=_mk_ubm(cfg))
-    if kind == "jfa":
+    if kind in ("isv", "jfa"):
+        if cfg.get("ubm_kwargs"):
+            # the UBM is trained inside fit_using_array (two ML steps from a given start)
+            ukw = dict(ubm=None, ubm_kwargs=dict(n_gaussians=cfg["c"], ubm=_mk_ubm(cfg),
+                                                 max_fitting_steps=2, convergence_threshold=None))
+        else:
+            ukw = dict(ubm=_mk_ubm(cfg))
+        if kind == "isv":
+            return ISVMachine(cfg["rU"], em_iterations=cfg["it"], relevance_factor=cfg["rf"],
+                              random_state=cfg["rs"], **ukw)
         return JFAMachine(cfg["rU"], cfg["rV"], em_iterations=cfg["it"],
-                          relevance_factor=cfg["rf"], random_state=cfg["rs"], ubm=_mk_ubm(cfg))
+                          relevance_factor=cfg["rf"], random_state=cfg["rs"], **ukw)
     if kind == "wccn":
-        return WCCN()
-    return Whitening()
+        return WCCN(pinv=bool(cfg.get("pinv")))
+    return Whitening(pinv=bool(cfg.get("pinv")))
 
 
 def _np(x):
@@ -309,16 +358,29 @@ def _cmp(pa, pb, s, tol):
 
 
 def _fit(case, m, X):
+    m = _fit_once(case, m, X)
+    if case.get("refit"):
+        # a long-lived estimator object trained again (nothing from the first call may leak
+        # differently in the two paths)
+        if isinstance(X, da.Array):
+            X2 = _dask_X(case, np.asarray(A(case["X"]))[::-1].copy(), reverse=True)
+        else:
+            X2 = np.asarray(X)[::-1].copy()
+        m = _fit_once(case, m, X2, reverse=True)
+    return m
+
+
+def _fit_once(case, m, X, reverse=False):
     kind = case["kind"]
     if kind in ("isv", "jfa"):
-        return m.fit_using_array(X, _labels(case, dask=isinstance(X, da.Array)))
+        return m.fit_using_array(X, _labels(case, dask=isinstance(X, da.Array), reverse=reverse))
     if kind == "wccn":
-        return m.fit(X, _labels(case, dask=False))
+        return m.fit(X, _labels(case, dask=False, reverse=reverse))
     return m.fit(X)
 
 
-def _labels(case, dask):
-    y = case["y"]
+def _labels(case, dask, reverse=False):
+    y = case["y"][::-1] if reverse else case["y"]
     f = case.get("yform", "array")
     if f == "list":
         return list(y)
@@ -327,8 +389,8 @@ def _labels(case, dask):
     return np.array(y)
 
 
-def _dask_X(case, X):
-    chunks = tuple(case["chunks"])
+def _dask_X(case, X, reverse=False):
+    chunks = tuple(case["chunks"][::-1] if reverse else case["chunks"])
     f = case.get("fchunks")
     return da.from_array(X, chunks=(chunks, tuple(f) if f else (X.shape[1],)))
 
@@ -406,6 +468,22 @@ def run_case(case, replay=None):
         w = mem_cap[0][1]
         if not np.isfinite(w).all():
             skip = "nonfinite-reference"
+        else:
+            # inverse + Cholesky amplify rounding by the condition number of the scatter:
+            # beyond 1e6 a block-wise and a whole-array mean/covariance legitimately differ
+            # by more than the tolerance
+            if kind == "whitening":
+                S = np.atleast_2d(np.cov(X.T))
+            else:
+                yy = np.array(case["y"])
+                S = np.zeros((X.shape[1], X.shape[1]))
+                for lab in set(case["y"]):
+                    Z = X[yy == lab] - X[yy == lab].mean(axis=0)
+                    S += Z.T @ Z
+            with np.errstate(all="ignore"):
+                cond = np.linalg.cond(S)
+            if not np.isfinite(cond) or cond > 1e6:
+                skip = "ill-conditioned"
 
     # ---------------- Dask side under the simulator ----------------
     def dask_fit(max_steps, t):
@@ -434,7 +512,7 @@ def run_case(case, replay=None):
             "dask-raises", {"exception": repr(d_exc)[:300], "chunks": case["chunks"],
                             "fchunks": case.get("fchunks"), "kind": kind}, **rec.fields())
 
-    if skip in ("near-tie", "degenerate-variance", "nonfinite-reference"):
+    if skip in ("near-tie", "degenerate-variance", "nonfinite-reference", "ill-conditioned"):
         return Result.skip(skip, **rec.fields())
 
     rec.note([a for _, a, _ in d_cap])
